@@ -349,7 +349,16 @@ func (c *FnCtx) doSlice(st *State, x *ssa.Slice) bool {
 			c.safety(st, x, "slice", fmt.Sprintf("(<= %s %s)", mx, xv.Cap()), "slice max <= cap")
 		}
 		c.safety(st, x, "slice", fmt.Sprintf("(and (<= 0 %s) (<= %s %s) (<= %s %s))", lo, lo, hi, hi, mx), "slice bounds 0 <= lo <= hi <= cap")
-		st.env[x] = sliceVal(x.Type(), xv.Base(), plus(xv.Off(), lo), minus(hi, lo), minus(mx, lo))
+		noff := plus(xv.Off(), lo)
+		if lo != "0" {
+			// name the new offset and relate element positions of the sub-slice to positions of
+			// the original, so that quantified facts about s transfer to s[lo:]
+			o := c.fresh("suboff", "Int")
+			st.assume(eq(o, noff))
+			st.assume(fmt.Sprintf("(forall ((i Int)) (! (= (at %s i) (at %s (+ %s i))) :pattern ((at %s i))))", o, xv.Off(), lo, o))
+			noff = o
+		}
+		st.env[x] = sliceVal(x.Type(), xv.Base(), noff, minus(hi, lo), minus(mx, lo))
 		_ = t
 	case *types.Basic: // string
 		if x.High != nil {
